@@ -2,11 +2,15 @@ import WuffsVerif.Common.Line
 import WuffsVerif.Model.Indent
 import WuffsVerif.Model.Render
 import WuffsVerif.Model.RenderTokens
+import WuffsVerif.Proof.RenderShape
 /-! Line driver for C12.  Ops:
   format <tabs 0|1> <spaces n> <hex>   -> ok <hex>      (lib/dumbindent FormatBytes(nil, src, opts))
   closed <tabs 0|1> <spaces n> <hex>   -> 1 | 0         (ghost: Indent.lexClosed, the hypothesis of indent_idempotent)
   num <hex>                            -> ok <hex>      (lang/render appendNum(nil, s))
   fmt <hex>                            -> ok <hex> | reject   (token.Tokenize + render.Render, no parse gate)
+  rok <hex>                            -> 1 | 0 tokens | 0 comments | 0 lines | reject
+        (ghost: the hypothesis `streamOK` of Props.C12.render_retokenizes_partial on Tokenize's result;
+         the harness sends it for every source the real wuffsfmt accepts and expects 1)
 -/
 open WuffsVerif WuffsVerif.Line
 
@@ -31,6 +35,16 @@ def c12Step (l : List String) : String :=
     match fromHex hx with
     | some s => match Render.fmt s with
       | some out => "ok " ++ toHex out
+      | none => "reject"
+    | none => "bad-op"
+  | ["rok", hx] =>
+    match fromHex hx with
+    | some s => match FmtToken.tokenize s with
+      | some (toks, comments) =>
+        if !toks.all Render.wfTok then "0 tokens"
+        else if !comments.toList.all Render.wfComment then "0 comments"
+        else if !Render.linesOK (toks.length + 1) toks then "0 lines"
+        else "1"
       | none => "reject"
     | none => "bad-op"
   | ["num", hx] =>
